@@ -7,11 +7,25 @@ use std::sync::Once;
 pub struct PanicInfo { pub file: String, pub line: u32, pub message: String }
 
 impl PanicInfo {
-    /// message with digits collapsed -> stable across instances
+    /// message with digits collapsed and quoted instance data (`...`, '...', "...") elided -> stable across instances
     pub fn template(&self) -> String {
+        // 1. elide quoted runs: the standard library and anyhow quote the offending value (a string, a char, a key)
+        let mut elided = String::new();
+        let mut chars = self.message.chars().peekable();
+        while let Some(c) = chars.next() {
+            if c == '`' || c == '"' || c == '\'' {
+                // an apostrophe inside a word (doesn't) is not a quote
+                if c == '\'' && elided.chars().last().is_some_and(|p| p.is_alphanumeric()) { elided.push(c); continue; }
+                let mut body = String::new();
+                let mut closed = false;
+                for d in chars.by_ref() { if d == c { closed = true; break; } body.push(d); }
+                if closed || c != '\'' { elided.push(c); elided.push('…'); elided.push(c); } else { elided.push(c); elided.push_str(&body); }
+            } else { elided.push(c); }
+        }
+        // 2. collapse digit runs
         let mut out = String::new();
         let mut in_num = false;
-        for c in self.message.chars() {
+        for c in elided.chars() {
             if c.is_ascii_digit() { if !in_num { out.push('#'); in_num = true; } } else { in_num = false; out.push(c); }
         }
         if out.len() > 120 { let mut cut = 120; while !out.is_char_boundary(cut) { cut -= 1; } out.truncate(cut); }
@@ -20,6 +34,8 @@ impl PanicInfo {
     /// `path/in/repo.rs: template` (line numbers left out so unrelated edits do not change the signature)
     pub fn site(&self) -> String {
         let f = self.file.strip_prefix("/repo/").unwrap_or(&self.file);
+        // a dependency from the cargo registry: keep `<crate>-<version>/src/...` only
+        let f = match f.find("/registry/src/") { Some(i) => f[i + 14..].split_once('/').map(|(_, rest)| rest).unwrap_or(f), None => f };
         format!("{}: {}", f, self.template())
     }
 }
